@@ -4,6 +4,7 @@ CONSTANTS
 INVARIANT EmitsExactlyInRange
 INVARIANT NeverOutside
 INVARIANT ChunkIndependent
+INVARIANT HarmonicProbeSeparates
 INVARIANT EmitInv
 PROPERTY EachOnce
 PROPERTY Terminates
